@@ -62,7 +62,7 @@ def _total(effects) -> float:
 # ------------------------------------------------------------------------------------------
 def led_space(tier):
     A, _ = _mods()
-    vals = [-1, 0, 1, 127, 254, 255, 256, 2.5, True, 0.4, 0.999, 1e-9, -0.0] + ([64, 200, -0.5, 255.5, False, 254.999, 1.0] if tier == "thorough" else [])
+    vals = [-1, 0, 1, 127, 254, 255, 256, 2.5, True, 0.4, 0.999, 1e-9, -0.0, float("nan"), float("inf")] + ([64, 200, -0.5, 255.5, False, 254.999, 1.0] if tier == "thorough" else [])
     ops: List[Op] = [("on", (), {}), ("off", (), {}), ("toggle", (), {}), ("get_state", (), {}), ("get_brightness", (), {})]
     ops += [("set_brightness", (v,), {}) for v in vals]
     for d in (-1, 0, 10, 2.5):
@@ -134,20 +134,22 @@ def led_space(tier):
 def rgb_space(tier):
     A, _ = _mods()
     comp = [-1, 0, 1, 128, 255, 256, 2.5, True]
+    nan_colours = [(float("nan"), 0, 0), (0, float("inf"), 0)]
     colours = [(0, 0, 0), (255, 255, 255), (1, 128, 255), (10, 20, 30), (255, 0, 1)]
     bad = [(-1, 0, 0), (0, 256, 0), (0, 0, 2.5), (True, 0, 0), (0, 0, -1)]
     if tier == "thorough":
         colours += [(7, 7, 7), (0, 255, 0), (254, 1, 0)]
         bad += [(256, 256, 256), (0, "1", 0)]
     ops: List[Op] = [("off", (), {}), ("on", (), {}), ("get_color", (), {}), ("get_state", (), {})]
-    for c in colours + bad:
+    for c in colours + bad + nan_colours:
         ops.append(("set_color", c, {}))
     for c in colours[:3] + bad[:2]:
         ops.append(("on", c, {}))
     ops.append(("on", (), {"blue": 9}))
     for c in colours + bad[:3]:
-        for dur, steps in ((1000, 50), (0, 5), (100, 1), (10, 3), (-1, 5), (100, 0), (100, -2), (7.5, 4), (100, 7)):
+        for dur, steps in ((1000, 50), (0, 5), (100, 1), (10, 3), (-1, 5), (100, 0), (100, -2), (7.5, 4), (100, 7), (130, 50), (30, 50), (11, 7), (5, 3), (1, 2), (3, 2), (99, 100)):
             ops.append(("fade", c, {"duration_ms": dur, "steps": steps}))
+    ops.append(("fade", (255, 0, 0), {"duration_ms": 130}))
     ops.append(("fade", (5, 1, 3), {}))
     for c in colours[:4] + bad[:3]:
         for times, delay in ((1, 200), (2, 0), (3, 15), (0, 10), (-1, 10), (1, -1), (2, 2.5)):
@@ -231,8 +233,9 @@ def servo_space(tier, variant):
     cfg = SERVO_CFGS[variant]
     narrow = variant
     lo_a, hi_a, lo_p, hi_p = cfg["min_angle"], cfg["max_angle"], cfg["min_pulse_us"], cfg["max_pulse_us"]
-    angles = [lo_a - 1, lo_a, lo_a + 1, (lo_a + hi_a) / 2, 33.3, hi_a - 1, hi_a, hi_a + 1, -5, 1000, True]
-    pulses = [lo_p - 1, lo_p, lo_p + 1, (lo_p + hi_p) / 2, 1234.5, hi_p - 1, hi_p, hi_p + 1, 0, 99999]
+    nan, inf = float("nan"), float("inf")
+    angles = [lo_a - 1, lo_a, lo_a + 1, (lo_a + hi_a) / 2, 33.3, hi_a - 1, hi_a, hi_a + 1, -5, 1000, True, nan, inf, -inf]
+    pulses = [lo_p - 1, lo_p, lo_p + 1, (lo_p + hi_p) / 2, 1234.5, hi_p - 1, hi_p, hi_p + 1, 0, 99999, nan, inf, -inf]
     if tier == "thorough":
         angles += [lo_a + 0.1, 90, 45.5, 179.999]
         pulses += [1500, 1000.25, 2399.9]
@@ -279,13 +282,14 @@ def servo_space(tier, variant):
 # ------------------------------------------------------------------------------------------
 def motor_space(tier):
     A, _ = _mods()
-    speeds = [-2, -1, -0.5, 0, 0.25, 1, 3, True, "x"]
+    speeds = [-2, -1, -0.5, 0, 0.25, 1, 3, True, "x", 0.003, -0.001, 1 / 256, float("nan"), float("inf")]
     if tier == "thorough":
         speeds += [0.999, -0.001, 1e-9, None]
     ops: List[Op] = [("stop", (), {}), ("coast", (), {}), ("invert", (), {}), ("get_speed", (), {}), ("get_mode", (), {}),
                      ("get_applied_speed", (), {}), ("is_inverted", (), {})]
     ops += [("set_speed", (v,), {}) for v in speeds]
-    ops += [("backward", (v,), {}) for v in speeds[:8]] + [("backward", (), {})]
+    ops += [("backward", (v,), {}) for v in speeds[:8] + [0.001, float("nan")]] + [("backward", (), {})]
+    ops += [("ramp", (0.002, 40), {}), ("ramp", (float("nan"), 40), {}), ("run_for", (10, 0.002), {})]
     for tgt in (-2, -1, 0, 0.5, 1, "x"):
         for dur in (-1, 0, 100, 33):
             ops.append(("ramp", (tgt, dur), {}))
